@@ -101,6 +101,32 @@ pub fn eval(c: &HCase) -> Eval {
         }
         h.str(ch);
     }
+    // every protocol prefix the configuration validation accepts must be usable for the derivation
+    let prefixes = ["", "a", "OSMO", "osmo", "o1", "x".repeat(83).as_str().to_string().as_str(), "y".repeat(84).as_str().to_string().as_str(), "os mo", "osmo!", "~"].iter().map(|s| s.to_string()).collect::<Vec<String>>();
+    for (i, pfx) in prefixes.iter().enumerate() {
+        let cfg = staking::types::UnsafeProtocolChainConfig {
+            account_address_prefix: pfx.clone(),
+            ibc_token_denom: format!("ibc/{}", "A".repeat(64)),
+            ibc_channel_id: "channel-1".into(),
+            minimum_liquid_stake_amount: cosmwasm_std::Uint128::new(1),
+            oracle_address: None,
+        };
+        if let crate::host::Guarded::Done(Ok(stored)) = crate::host::guarded(|| cfg.validate().map(|c| c.account_address_prefix)) {
+            ev.stats.probe("prefix_candidate_accepted");
+            let sender = b32_encode("celestia", &[7u8; 20]);
+            let want = hooks_intermediate_sender("channel-1", &sender, &stored);
+            match crate::host::guarded(|| staking::helpers::derive_intermediate_sender("channel-1", &sender, &stored)) {
+                crate::host::Guarded::Done(Ok(got)) if got == want => {}
+                other => {
+                    let got = match other {
+                        crate::host::Guarded::Done(r) => format!("{:?}", r),
+                        _ => "panic".to_string(),
+                    };
+                    ev.viol.push(Violation { stop: true, prop: "C09", clause: "accepted_prefix_is_derivable", step: 200 + i, msg: format!("protocol prefix {:?} is accepted (stored {:?}) but the intermediate account derives to {} instead of {}", pfx, stored, got, want) });
+                }
+            }
+        }
+    }
     ev.hash = h.0;
     ev.nontrivial = c.pairs.len() >= 2;
     ev.stats.tx_ok = c.pairs.len() as u64;
